@@ -32,7 +32,8 @@ pub fn load(path: &str) -> Result<Result<Parameters, String>, String> {
 }
 
 fn nice(rng: &mut Rng) -> f64 {
-    match rng.below(6) { 0 => 0.0, 1 => rng.int(-3, 3) as f64, 2 => dy(rng.range(-2.0, 2.0), 3), _ => (rng.range(-2.0, 2.0) * 1000.0).round() / 1000.0 }
+    // ... and genuinely small lengths (fractions of a millimetre down to nanometres): small is not zero
+    match rng.below(7) { 0 => 0.0, 1 => rng.int(-3, 3) as f64, 2 => dy(rng.range(-2.0, 2.0), 3), 3 => rng.range(-1.0, 1.0) * 10f64.powi(-(rng.int(3, 9) as i32)), _ => (rng.range(-2.0, 2.0) * 1000.0).round() / 1000.0 }
 }
 
 pub fn main(tier: &str, seed: u64, n_override: Option<u64>) {
